@@ -9,7 +9,7 @@ LEVEL_TEXT = ("proved for every input: each find_unescape node covers the whole 
               "cover UnicodeEncodeError, chr() range proved from the pattern); unescape_xml's int() conversions cannot raise on the language of "
               "XML_ESCAPE_RE and every byte is in range (this obligation found the x[a-z0-9]{2} defect); types and labels are pinned")
 LEVEL_NOTE = ("the element-wise value of an XML run (value[j] = j-th reference) rests on the trusted delimiter lemma A-delim for replace/split (validated at run time) "
-              "and is checked by the bounded oracle; find_chr's value is pinned by the oracle only; find_unescape and find_utf16 return exactly one node per match of their pattern (proved: no match is filtered away); WHICH substrings the regex engine matches "
+              "and is checked by the bounded oracle; find_chr's value is pinned by the oracle only; find_unescape and find_utf16 return exactly one node per match of their pattern (proved: no match is filtered away); the languages of UNESCAPE_RE, CHR_RE, XML_ESCAPE_RE and UTF16_RE are pinned (pin/<CONSTANT>, anchors / look-arounds erased on both sides); WHICH substrings the regex engine matches "
               "('is found as one unit') is bounded")
 DESIGN_REF = "DESIGN.md 6 (C14)"
 FUNCTIONS = ["multidecoder.decoders.xml.unescape_xml", "multidecoder.decoders.xml.find_xml_hex", "multidecoder.decoders.chr.find_chr",
